@@ -1292,6 +1292,395 @@ fn real_sessions(rep: &mut Report) {
     }
 }
 
+// ------------------------------------------------------------------ two connections of one peer (collision)
+//
+// Both roles of one peer behind the real `ConnArbiter`, each connection with the timers of
+// its own task.  `PeerSession::apply_outputs` does not look at the role a `Set*Timer` /
+// `SessionDown` output is addressed to: whatever `ConnArbiter::process` returns to the
+// calling task is applied to the calling task's timers — transcribed exactly so.  The
+// loser of a collision is told through its close channel (its task ends, `release_role` +
+// `Input::Disconnected` as in release_connection / apply_disconnect).
+// Clause: each connection is judged by the same oracle as a single connection — in
+// particular the connection that survives a collision has its hold and keepalive timers
+// armed with the negotiated values after its OPEN step, and the re-arm / expiry /
+// zero-disables rules hold from then on.
+
+#[derive(Clone, Copy, PartialEq, Eq, Debug)]
+enum DuoEv {
+    Adv(u64),
+    Open(usize),
+    Ka(usize),
+    Upd(usize),
+}
+
+fn duo_ev_str(e: DuoEv) -> String {
+    let r = |i: usize| if i == 0 { "A" } else { "P" };
+    match e {
+        DuoEv::Adv(d) => format!("advance({})", d),
+        DuoEv::Open(i) => format!("{}:rx-open", r(i)),
+        DuoEv::Ka(i) => format!("{}:rx-keepalive", r(i)),
+        DuoEv::Upd(i) => format!("{}:rx-update", r(i)),
+    }
+}
+
+struct Side {
+    role: Role,
+    drv: VDriver,
+    oracle: Oracle,
+    alive: bool,
+    rx: Option<tokio::sync::oneshot::Receiver<super::super::CloseReason>>,
+    judged: u64,
+}
+
+struct Duo<'a> {
+    pair: &'a Pair,
+    open: bgp::Message,
+    arb: super::super::ConnArbiter,
+    sides: [Side; 2],
+    now: u64,
+    want_trace: bool,
+    trace: Vec<String>,
+    /// (caller index, caller survived) of every collision resolved
+    collisions: Vec<(usize, bool, bool)>,
+}
+
+impl<'a> Duo<'a> {
+    fn new(pair: &'a Pair, remote_id: u32, want_trace: bool) -> Duo<'a> {
+        let open = bgp::Message::Open(bgp::Open {
+            as_number: REMOTE_AS,
+            holdtime: HoldTime::new(pair.remote).expect("hold time 0 or >= 3"),
+            router_id: remote_id,
+            capability: vec![
+                Capability::MultiProtocol(Family::IPV4),
+                Capability::FourOctetAsNumber(REMOTE_AS),
+            ],
+        });
+        let side = |role| Side {
+            role,
+            drv: VDriver::new(),
+            oracle: Oracle::new(pair),
+            alive: false,
+            rx: None,
+            judged: 0,
+        };
+        let mut d = Duo {
+            pair,
+            open,
+            arb: super::super::ConnArbiter::new(pair.fsm()),
+            sides: [side(Role::Active), side(Role::Passive)],
+            now: 0,
+            want_trace,
+            trace: Vec::new(),
+            collisions: Vec::new(),
+        };
+        // accept_connection + session_loop's Input::Connected for both roles at t=0
+        for i in 0..2 {
+            let (tx, rx) = tokio::sync::oneshot::channel();
+            if i == 0 {
+                d.arb.active_close_tx = Some(tx);
+            } else {
+                d.arb.passive_close_tx = Some(tx);
+            }
+            d.sides[i].rx = Some(rx);
+            let outs = d.arb.process(d.sides[i].role, Input::Connected(false));
+            let down = d.sides[i].drv.apply_outputs(&outs);
+            d.sides[i].alive = !down;
+            if want_trace {
+                d.trace.push(format!(
+                    "t=0 {:?} connected -> [{}] hold={:?} ka={:?}",
+                    d.sides[i].role,
+                    render_outs(&outs),
+                    d.sides[i].drv.hold,
+                    d.sides[i].drv.ka
+                ));
+            }
+        }
+        d
+    }
+
+    /// the tear-down of a connection's task
+    fn end_task(&mut self, i: usize) {
+        self.sides[i].alive = false;
+        self.sides[i].rx = None;
+        let role = self.sides[i].role;
+        self.arb.release_role(role);
+        let _ = self.arb.process(role, Input::Disconnected);
+    }
+
+    fn deliver(&mut self, i: usize, kind: Kind, t: &mut Tally, out: &mut Vec<Finding>) {
+        let role = self.sides[i].role;
+        let o = 1 - i;
+        let st_before = self.arb.state(role);
+        let other_before = self.arb.state(self.sides[o].role);
+        self.sides[i].drv.now = self.now;
+        let before = self.sides[i].drv;
+        let input = match kind {
+            Kind::HoldFire => Input::HoldTimerExpired,
+            Kind::KaFire => Input::KeepaliveTimerExpired,
+            Kind::Open => Input::MessageReceived(self.open.clone()),
+            Kind::Ka => Input::MessageReceived(bgp::Message::Keepalive),
+            Kind::Upd => Input::MessageReceived(bgp::Message::Update(bgp::Update::EndOfRib(Family::IPV4))),
+            Kind::Rr => Input::MessageReceived(bgp::Message::RouteRefresh { family: Family::IPV4 }),
+            Kind::UpdSent => Input::UpdateSent,
+        };
+        // what the calling task gets back, applied to the calling task's timers whatever role it names
+        let outs = self.arb.process(role, input);
+        let down = self.sides[i].drv.apply_outputs(&outs);
+        let st_after = self.arb.state(role);
+        let f = facts(&outs);
+        if self.want_trace {
+            self.trace.push(format!(
+                "t={} {:?}: {} in {:?} -> [{}] state={:?} hold={:?} ka={:?}",
+                self.now,
+                role,
+                kind.label(),
+                st_before,
+                render_outs(&outs),
+                st_after,
+                self.sides[i].drv.hold,
+                self.sides[i].drv.ka
+            ));
+        }
+        let after = self.sides[i].drv;
+        self.sides[i].judged += 1;
+        self.sides[i].oracle.judge(kind, st_before, st_after, &f, &before, &after, t, out);
+        // a collision was resolved in this step?
+        let busy = |s: State| matches!(s, State::OpenConfirm | State::Established);
+        if kind == Kind::Open && st_before == State::OpenSent && busy(other_before) {
+            let caller_survived = st_after == State::OpenConfirm;
+            self.collisions.push((i, caller_survived, other_before == State::Established));
+        }
+        if down {
+            self.end_task(i);
+        }
+        // the other connection's close channel (the loser's CEASE arrives there)
+        let told = match self.sides[o].rx.as_mut() {
+            Some(rx) => rx.try_recv().is_ok(),
+            None => false,
+        };
+        if told {
+            if self.want_trace {
+                self.trace.push(format!("t={} {:?}: told to close through its close channel", self.now, self.sides[o].role));
+            }
+            self.end_task(o);
+        }
+    }
+
+    fn settle(&mut self, t: &mut Tally, out: &mut Vec<Finding>, budget: &mut u32) {
+        loop {
+            let mut fired = false;
+            for i in 0..2 {
+                if !self.sides[i].alive {
+                    continue;
+                }
+                self.sides[i].drv.now = self.now;
+                if let Some(fire) = self.sides[i].drv.poll() {
+                    if *budget == 0 {
+                        return;
+                    }
+                    *budget -= 1;
+                    self.deliver(i, if fire == Fire::Hold { Kind::HoldFire } else { Kind::KaFire }, t, out);
+                    fired = true;
+                }
+            }
+            if !fired {
+                return;
+            }
+        }
+    }
+
+    fn advance(&mut self, delta: u64, t: &mut Tally, out: &mut Vec<Finding>) {
+        let target = self.now.saturating_add(delta);
+        let mut budget = 10_000u32;
+        loop {
+            self.settle(t, out, &mut budget);
+            let wake = (0..2)
+                .filter(|i| self.sides[*i].alive)
+                .filter_map(|i| self.sides[i].drv.next_wake())
+                .min();
+            match wake {
+                Some(w) if w <= target && budget > 0 => self.now = w.max(self.now),
+                _ => {
+                    self.now = target;
+                    break;
+                }
+            }
+        }
+        self.settle(t, out, &mut budget);
+    }
+
+    /// false: the event cannot happen (that connection's task is gone)
+    fn event(&mut self, e: DuoEv, t: &mut Tally, out: &mut Vec<Finding>) -> bool {
+        let mut budget = 10_000u32;
+        match e {
+            DuoEv::Adv(d) => {
+                self.advance(d, t, out);
+                true
+            }
+            DuoEv::Open(i) | DuoEv::Ka(i) | DuoEv::Upd(i) => {
+                self.settle(t, out, &mut budget);
+                if !self.sides[i].alive {
+                    return false;
+                }
+                let kind = match e {
+                    DuoEv::Open(_) => Kind::Open,
+                    DuoEv::Ka(_) => Kind::Ka,
+                    _ => Kind::Upd,
+                };
+                self.deliver(i, kind, t, out);
+                self.settle(t, out, &mut budget);
+                true
+            }
+        }
+    }
+}
+
+struct DuoRun {
+    findings_last: Vec<Finding>,
+    ended_at: Option<usize>,
+    judged_last: u64,
+    after_collision: bool,
+    trace: Vec<String>,
+}
+
+fn run_duo(pair: &Pair, remote_id: u32, evs: &[DuoEv], t: &mut Tally, want_trace: bool) -> DuoRun {
+    let mut d = Duo::new(pair, remote_id, want_trace);
+    let mut run = DuoRun {
+        findings_last: Vec::new(),
+        ended_at: None,
+        judged_last: 0,
+        after_collision: false,
+        trace: Vec::new(),
+    };
+    let mut scratch = Tally::default();
+    for (i, e) in evs.iter().enumerate() {
+        let last = i + 1 == evs.len();
+        let mut found = Vec::new();
+        let before = d.sides[0].judged + d.sides[1].judged;
+        let n_coll = d.collisions.len();
+        if want_trace {
+            d.trace.push(format!("-- {}", duo_ev_str(*e)));
+        }
+        let possible = d.event(*e, if last { &mut *t } else { &mut scratch }, &mut found);
+        if !possible {
+            run.ended_at = Some(i);
+            break;
+        }
+        if last {
+            run.judged_last = d.sides[0].judged + d.sides[1].judged - before;
+            run.findings_last = found;
+            run.after_collision = !d.collisions.is_empty();
+            for (caller, survived, vs_established) in d.collisions.iter().skip(n_coll) {
+                let _ = caller;
+                t.add(match (survived, vs_established) {
+                    (_, true) => "collision:newcomer-vs-established",
+                    (true, false) => "collision:second-to-open-confirm-won",
+                    (false, false) => "collision:second-to-open-confirm-lost",
+                });
+            }
+            if run.after_collision && run.judged_last > 0 {
+                t.add("collision:steps-judged-after-a-collision");
+            }
+        }
+        if !d.sides[0].alive && !d.sides[1].alive && !last {
+            run.ended_at = Some(i);
+            break;
+        }
+    }
+    run.trace = std::mem::take(&mut d.trace);
+    run
+}
+
+fn collisions(rep: &mut Report, params: &Params, depth: usize, t: &mut Tally) {
+    let mut complete = true;
+    let local_id = 0x0a00_0001u32; // Pair::fsm()
+    'outer: for (l, r) in [(3u16, 3u16), (9, 3), (90, 30), (0, 9), (9, 0)] {
+        for remote_id in [0x0a00_0002u32, 0x0900_0009] {
+            let pair = Pair::new(l, r, Role::Active);
+            let mut alphabet: Vec<DuoEv> = pair.deltas().into_iter().map(DuoEv::Adv).collect();
+            for i in 0..2 {
+                alphabet.extend([DuoEv::Open(i), DuoEv::Ka(i), DuoEv::Upd(i)]);
+            }
+            let n = alphabet.len() as u8;
+            for d in 1..=depth {
+                let mut code = vec![0u8; d];
+                let mut since = 0u32;
+                loop {
+                    let evs: Vec<DuoEv> = code.iter().map(|c| alphabet[*c as usize]).collect();
+                    let run = run_duo(&pair, remote_id, &evs, t, false);
+                    let mut skip_from = None;
+                    match run.ended_at {
+                        Some(j) if j + 1 < d => skip_from = Some(j),
+                        _ => {
+                            rep.evals(run.judged_last);
+                            if run.after_collision {
+                                let mut key = vec![0xC0, l as u8, (l >> 8) as u8, r as u8, (r >> 8) as u8, (remote_id > local_id) as u8];
+                                key.extend_from_slice(&code);
+                                rep.nontrivial(fnv64(&key));
+                            }
+                            for f in run.findings_last {
+                                // the situation (two connections, collision) is part of the finding's identity
+                                let sig = f.sig.replacen("C08/", "C08/collision/", 1);
+                                if rep.has_violation(&sig) {
+                                    rep.violation(&sig, &f.what, Json::Null);
+                                } else {
+                                    let mut t2 = Tally::default();
+                                    let tr = run_duo(&pair, remote_id, &evs, &mut t2, true);
+                                    rep.violation(
+                                        &sig,
+                                        &f.what,
+                                        Json::obj(vec![
+                                            ("part", Json::s("two connections of one peer behind ConnArbiter")),
+                                            ("local_hold", Json::i(l)),
+                                            ("remote_hold", Json::i(r)),
+                                            ("local_id", Json::i(local_id)),
+                                            ("remote_id", Json::i(remote_id)),
+                                            ("events", Json::strs(evs.iter().map(|e| duo_ev_str(*e)))),
+                                            ("trace", Json::strs(tr.trace)),
+                                        ]),
+                                    );
+                                }
+                            }
+                        }
+                    }
+                    since += 1;
+                    if since >= 2048 {
+                        since = 0;
+                        if !rep.in_budget() {
+                            complete = false;
+                            break 'outer;
+                        }
+                    }
+                    if let Some(j) = skip_from {
+                        for c in code.iter_mut().skip(j + 1) {
+                            *c = n - 1;
+                        }
+                    }
+                    let mut wrapped = true;
+                    for k in (0..d).rev() {
+                        code[k] += 1;
+                        if code[k] < n {
+                            wrapped = false;
+                            break;
+                        }
+                        code[k] = 0;
+                    }
+                    if wrapped {
+                        break;
+                    }
+                }
+            }
+            t.add("collision:pair-id-combinations-completed");
+        }
+    }
+    let _ = params;
+    rep.extra("collision_depth", Json::i(depth as u32));
+    if !complete {
+        rep.exhaustive = Some(false);
+        rep.inconclusive("collision enumeration cut short by the time budget");
+    }
+}
+
 fn shard_index(p: &Params) -> usize {
     p.shard
         .rsplit('-')
@@ -1563,6 +1952,10 @@ fn run() {
         if part == "real" {
             rep.max_samples = 8;
             real_sessions(&mut rep);
+        }
+        if part == "collision" {
+            let d = params.get_u64("depth", if params.thorough() { 6 } else { 5 }) as usize;
+            collisions(&mut rep, &params, d, &mut t);
         }
     });
     t.flush(&mut rep);
